@@ -76,7 +76,7 @@ pub fn lifetime(kind: Kind) -> impl Strategy<Value = History> {
             }
             ops.push(Op::Skip { scene: 0, n: cfg.max_idle + 1 });
             ops.push(Op::Wasted);
-            History { cfg, objs, feat_dim, ops }
+            History { cfg, objs, feat_dim, ops, scale: 1.0 }
         })
 }
 
